@@ -18,10 +18,11 @@ import (
 func init() {
 	register("C14", "exploration", runC14, replayC14)
 	Workers["c14"] = c14Worker
+	Workers["c14periodic"] = c14PeriodicWorker
 }
 
 func runC14(r *report.Run) {
-	r.SetRule("race-detector build, child process per run: 16 query workers (cache on, every stamped query kind) x a reloader walking through generations (every other run with a 1 ms reload timeout so that reloads time out while still running; full reloads to new directories/files, partial reloads after a real ApplyDiff on the primary / file replacement, failing reloads: missing path, unreadable, missing validation key) x a ReportBackendStats ticker x a WatchDBAndReload watcher with a ReloadChan consumer x shutdown while queries are parked after reader acquisition (verif hook) and resumed afterwards; on CDB, RocksDB v1 and v2; repeated. Oracle: zero race-detector reports (deduplicated by entry-point pair), no panic/fatal error, every worker completes its fixed operation count before a generous watchdog. non-trivial = run in which queries and reloads really overlapped (measured: queries completed while a reload was in progress); distinct by (backend, repeat)")
+	r.SetRule("race-detector build, child process per run: 16 query workers (cache on, every stamped query kind) x a reloader walking through generations (every other run with a 1 ms reload timeout so that reloads time out while still running; full reloads to new directories/files, partial reloads after a real ApplyDiff on the primary / file replacement, failing reloads: missing path, unreadable, missing validation key) x a ReportBackendStats ticker x a WatchDBAndReload watcher with a ReloadChan consumer x shutdown while queries are parked after reader acquisition (verif hook) and resumed afterwards; plus the production wiring (NewFBDNSDB with a 1 s periodic reload) shut down while a reload is parked in progress and the next tick is already pending; on CDB, RocksDB v1 and v2; repeated. Oracle: zero race-detector reports (deduplicated by entry-point pair), no panic/fatal error, every worker completes its fixed operation count before a generous watchdog. non-trivial = run in which queries and reloads really overlapped (measured: queries completed while a reload was in progress); distinct by (backend, repeat)")
 	r.Assume("GORACE=halt_on_error=0 with log files; reports are counted from the logs, never from exit codes; a watchdog firing without a crash is inconclusive")
 	repeats := r.Pick(2, 5)
 	gens := r.Pick(25, 120)
@@ -89,6 +90,32 @@ func runC14(r *report.Run) {
 		}
 		if r.SampleN() < 2 {
 			r.Sample(map[string]interface{}{"backend": o.b.Name, "summary": res.Summary})
+		}
+	}
+	// production wiring: periodic reload + shutdown during a reload
+	if pres, err := runChild(true, "c14periodic", []string{fmt.Sprint(r.Pick(4, 12))}, 10*time.Minute); err != nil {
+		r.Inconclusive("periodic child: " + err.Error())
+	} else {
+		allLogs = append(allLogs, pres.RaceLogs...)
+		r.Eval(1)
+		last := ""
+		if len(pres.Journal) > 0 {
+			last = pres.Journal[len(pres.Journal)-1]
+		}
+		switch {
+		case pres.TimedOut:
+			r.Inconclusive("periodic-reload shutdown child timed out at: " + last)
+		case pres.Summary == nil:
+			key := ""
+			if strings.Contains(pres.Stderr, "send on closed channel") {
+				key = "periodic-reload-send-on-closed-channel"
+			}
+			r.Violation(key, fmt.Sprintf("shutdown while a reload is in progress and a periodic tick is pending: process died (exit %d) at %q:\n%s", pres.ExitCode, last, firstLines(pres.Stderr, 12)), map[string]string{"journal_last": last})
+		default:
+			if n, ok := pres.Summary["attempts"].(float64); ok {
+				r.Count("periodic_shutdown_attempts", int64(n))
+			}
+			r.Nontrivial("periodic-shutdown")
 		}
 	}
 	total, uniq := dedupRaces(allLogs)
@@ -243,6 +270,71 @@ func c14Worker(args []string) int {
 	summary(map[string]interface{}{"queries": atomic.LoadInt64(&queries), "reloads": nreload, "queries_during_reload": atomic.LoadInt64(&during),
 		"stats_reports": atomic.LoadInt64(&statsReports), "reload_timeouts": timeouts, "parked_at_shutdown": parked, "watcher_reloads": atomic.LoadInt64(&watcherReloads),
 		"panics": atomic.LoadInt64(&panics), "first_panic": fp})
+	return 0
+}
+
+// c14PeriodicWorker: the production wiring (NewFBDNSDB with a periodic reload) shut down while a reload is in
+// progress and the next periodic tick is already waiting to be delivered.
+func c14PeriodicWorker(args []string) int {
+	attempts := 4
+	if len(args) > 0 {
+		fmt.Sscan(args[0], &attempts)
+	}
+	done := 0
+	for a := 0; a < attempts; a++ {
+		b := harness.Backends[a%len(harness.Backends)]
+		dir := harness.NewDir("periodic")
+		lines := genLines(7000+a, true)
+		path := dir + "/db"
+		var err error
+		if b.Driver == "cdb" {
+			path = dir + "/db.cdb"
+			err = harness.CompileCDB([]byte(strings.Join(lines, "\n")+"\n"), path, 1)
+		} else {
+			err = harness.CompileRDB([]byte(strings.Join(lines, "\n")+"\n"), path, harness.RDBOpts{V2: b.V2, BatchSize: 1000, BatchParallel: 1, NumCPU: 1})
+		}
+		if err != nil {
+			fmt.Println(err)
+			return 2
+		}
+		s := schedFor()
+		dnsserver.SetVerifHook(s.Hook)
+		h, err := dnsserver.NewFBDNSDB(dnsserver.HandlerConfig{}, dnsserver.DBConfig{Path: path, Driver: b.Driver, ReloadInterval: 1, ReloadTimeout: 10 * time.Second},
+			dnsserver.CacheConfig{}, &harness.Logger{}, harness.NewStats())
+		if err != nil {
+			fmt.Println(err)
+			return 2
+		}
+		if err := h.Load(); err != nil {
+			fmt.Println(err)
+			return 2
+		}
+		journal("attempt %d %s: waiting for the first periodic reload", a, b.Name)
+		p := s.ParkAt("r:locked", matchReload)
+		if !p.Arrived(5 * time.Second) {
+			fmt.Println("periodic reload never started")
+			p.Release()
+			h.Close()
+			continue
+		}
+		time.Sleep(1200 * time.Millisecond) // the next tick is now waiting to be delivered
+		journal("attempt %d %s: shutdown requested while the reload is in progress and a tick is pending", a, b.Name)
+		closed := make(chan struct{})
+		go func() { h.Close(); close(closed) }()
+		time.Sleep(50 * time.Millisecond)
+		p.Release()
+		select {
+		case <-closed:
+		case <-time.After(10 * time.Second):
+			fmt.Println("shutdown did not return")
+			return 3
+		}
+		time.Sleep(300 * time.Millisecond)
+		dnsserver.SetVerifHook(nil)
+		done++
+		harness.Remove(dir)
+	}
+	summary(map[string]interface{}{"attempts": done})
 	return 0
 }
 
